@@ -166,7 +166,7 @@ _FP = ('@VERIF@/harness/c16_fptr.c', [], '@VERIF@/harness/c16_fptr_none.c',
 def _ilp32(name, opt, tiers):
     return dict(name=name, src=['harness/c16_bitops.c'], workers=16, tiers=tiers,
                 cflags=['-DC16_PART_ILP32', '-DC16_ILP32_OPT="%s"' % opt, '-DC16_ILP32_BIN="@BUILD@/c16_ilp32_%s.bin"' % opt[1:]],
-                deadline=dict(quick=300, thorough=900), prebuild=_c16_prebuild_ilp32)
+                deadline=dict(quick=300, thorough=1800), prebuild=_c16_prebuild_ilp32)
 
 
 CHECK = dict(
@@ -174,10 +174,10 @@ CHECK = dict(
     parts=[
         dict(name='c16f', src=['harness/c16_bitops.c'], lib=['bitops.c'], workers=16, cflags=['-DC16_PART_FUNCS'],
              objs=[('@VERIF@/harness/c16_user.c', ['-DC16U_FUNCS']), _FP],
-             deadline=dict(quick=300, thorough=900), prebuild=_c16_prebuild),
+             deadline=dict(quick=300, thorough=1800), prebuild=_c16_prebuild),
         dict(name='c16m', src=['harness/c16_bitops.c'], lib=['bitops.c'], workers=16, cflags=['-DC16_PART_MACROS'],
              objs=[('@VERIF@/harness/c16_user.c', ['-DC16U_MACROS'])],
-             deadline=dict(quick=300, thorough=1500), prebuild=_c16_prebuild),
+             deadline=dict(quick=300, thorough=1800), prebuild=_c16_prebuild),
         _ilp32('c16i', '-O2', ('quick', 'thorough')),
         _ilp32('c16iOs', '-Os', ('thorough',)),
         _ilp32('c16iO0', '-O0', ('thorough',)),
